@@ -1,4 +1,78 @@
-(* C05 - placeholder statement file, replaced below *)
-From VJ Require Import Model.Str.
-Theorem C05_placeholder : True. Proof. exact I. Qed.
-Print Assumptions C05_placeholder.
+(* C05 - v-model / v-models produce a working two-way binding. Statements only.
+
+   FULL STATEMENT (decided on every generated probe by [check_site], tags "C05:"):
+     forall E el s, no "C05:" entry in check_site E fuel el (fst (lower_el E el s)).
+   It is FALSE for a computed argument (known finding, pinned by a fixture): see
+   C05_computed_arg_refuted.  PROVED (partial), for absent / static arguments: the props a
+   component receives, the directive + listener a form element receives, the choice of the
+   model directive by host, that the listener assigns the bound target, and that v-models is the
+   same-order sequence of v-model attributes. *)
+From VJ Require Import Model.Str Model.Json Model.Ast Model.State Model.Util Model.Directive
+  Model.Lower Model.Visitor Spec.JsxText Spec.OutViews Spec.Site Spec.SiteCheck Lemmas.SiteProofs.
+
+Definition C05_full_statement : Prop :=
+  forall E el s, filter (starts_with (s_ "C05:")) (check_site E 40 el (fst (lower_el E el s))) = [].
+
+Theorem C05_component_partial : forall E tag all name value d a,
+  spec_directive_name name = Some d ->
+  sq "html" (dn_name d) = false -> sq "text" (dn_name d) = false -> sq "model" (dn_name d) = true ->
+  static_arg (dp_arg (spec_directive_parts d value)) ->
+  user_value (dflt_value (dp_value (spec_directive_parts d value))) = true ->
+  let a' := step_directive true a name value in
+  exists ps,
+    a_props a' = a_props a ++ ps
+    /\ map view_prop ps = fst (fst (attr_spec E true tag all (JAttr name value)))
+    /\ a_dirs a' = a_dirs a /\ a_margs a' = a_margs a /\ a_slots a' = a_slots a.
+Proof. exact vmodel_component_refines. Qed.
+Print Assumptions C05_component_partial.
+
+Theorem C05_element_partial : forall E tag attrs name value d a,
+  spec_directive_name name = Some d ->
+  sq "html" (dn_name d) = false -> sq "text" (dn_name d) = false -> sq "model" (dn_name d) = true ->
+  static_arg (dp_arg (spec_directive_parts d value)) ->
+  arg_not_void (dp_arg (spec_directive_parts d value)) ->
+  let a' := step_directive false a name value in
+  exists p dir,
+    a_props a' = a_props a ++ [p] /\ a_dirs a' = a_dirs a ++ [dir]
+    /\ map view_prop [p] = fst (fst (attr_spec E false tag attrs (JAttr name value)))
+    /\ (forall s1, map view_dir (fst (build_directives [dir] tag attrs s1))
+                   = map Some (snd (fst (attr_spec E false tag attrs (JAttr name value)))))
+    /\ a_margs a' = a_margs a /\ a_slots a' = a_slots a.
+Proof. exact vmodel_element_refines. Qed.
+Print Assumptions C05_element_partial.
+
+(* the model directive follows the host: select; textarea; input by static type; dynamic type *)
+Theorem C05_host_directive_partial : forall tag attrs s,
+  norm_def (fst (resolve_directive (s_ "model") tag attrs s))
+  = mk_ident (s_ (String.append "_" (spec_model_directive tag attrs))) 0.
+Proof. exact resolve_model. Qed.
+Print Assumptions C05_host_directive_partial.
+
+(* invoking the listener assigns the value to the bound target: `$event => (target) = $event` *)
+Theorem C05_listener_assigns_target : forall t, is_listener (listener t) = Some t.
+Proof. exact is_listener_listener. Qed.
+Print Assumptions C05_listener_assigns_target.
+
+(* v-models: replaced in place by the v-model attributes it lists, in order *)
+Theorem C05_vmodels_sequence : forall attrs s,
+  fst (decouple_attrs attrs s) = splice_vmodels attrs false.
+Proof. exact decouple_attrs_spec. Qed.
+Print Assumptions C05_vmodels_sequence.
+
+(* the known finding, with its witness `<C v-model={[m, dyn]} />`: the key lacks the colon *)
+Theorem C05_computed_arg_refuted : forall E tag all s,
+  let ps := a_props (step_directive true (w_acc s) w_name w_value) in
+  map view_prop ps <> fst (fst (attr_spec E true tag all (JAttr w_name w_value)))
+  /\ map view_prop ps = map pinned_listener_key (fst (fst (attr_spec E true tag all (JAttr w_name w_value)))).
+Proof. exact vmodel_computed_arg_refuted. Qed.
+Print Assumptions C05_computed_arg_refuted.
+
+(* non-vacuity: `<C v-model:title_trim={foo.bar} />` *)
+Example C05_nonvacuous :
+  let name := JNs (IdName (s_ "v-model")) (IdName (s_ "title_trim")) in
+  let value := JExprC (Member (Ident (s_ "foo") 2 false) (IdName (s_ "bar"))) in
+  exists d, spec_directive_name name = Some d /\ sq "model" (dn_name d) = true
+            /\ static_arg (dp_arg (spec_directive_parts d value))
+            /\ user_value (dflt_value (dp_value (spec_directive_parts d value))) = true
+            /\ sort_dedup (dp_mods (spec_directive_parts d value)) = [s_ "trim"].
+Proof. eexists. vm_compute. repeat split. Qed.
